@@ -27,8 +27,12 @@ pub mod c17;
 pub mod c19;
 pub mod c20;
 pub mod genpool;
+pub mod disturbw;
 
 pub fn worker(prop: &str, case: &Value) -> Value {
+    if case["g"].as_str() == Some("disturb") {
+        return disturbw::worker(prop, case);
+    }
     match prop {
         "C01" => c01::worker(case),
         "C02" => c02::worker(case),
